@@ -47,3 +47,6 @@ chk("C07", "exploration", "schedule-controlled runtime monitor: real SQLite writ
 chk("C09", "fault_enumeration", "crash-injection monitor: real SQLite writer killed (or write torn) at its k-th file operation by an LD_PRELOAD shim; sqlittle on the leftover pair vs SQLite's recovery of a copy",
     "Enumerates the syscall boundaries (write/truncate/sync/unlink on database and journal) of 3 (quick, strided + all sync/unlink/truncate neighbours) / ~48 (thorough, every k, kill and torn) scenario x journal-mode x page/sector-size combinations. Process-death crashes only (page cache survives); torn writes at half length.",
     "SQLite's own recovery of a copy is the reference; journal classified by its first bytes", "DESIGN.md 3 C09")
+chk("C08", "exploration", "history monitor (long-lived handle vs SQLite's view after every committed write of a PRNG history) + linearizability check of concurrent read/commit histories with porcupine",
+    "12 (quick) / 200 (thorough) sequential histories of 40/120 steps over DML, DDL, VACUUM, incremental vacuum, growth and shrink, each read twice, on databases below and above the 100-page cache, through both APIs; 6/60 concurrent histories with two writer processes checked as a single register. Held on the histories generated.",
+    "SQLite 3.40.1 in another process is writer and reference; porcupine timeout = inconclusive", "DESIGN.md 3 C08")
